@@ -7,11 +7,13 @@
     [bitmap.Getw/any]   [bm; i; w]   -> Getw(bm, i, w) on any bitmap and any int32 index (P = panic);
                                         judged by the specification only while i*w fits int32
     [bitmap.Join/split] [bm; w]      -> Join([Getw(bm, i, w) for i < 64*len(bm)/w], w); must be bm again
-    [bitmap.Slice/ToArray] [ws; from; to] -> ToArray(Slice(ws, from, to)) *)
+    [bitmap.Slice/ToArray] [ws; from; to] -> ToArray(Slice(ws, from, to))
+    [bitmap.Fmt] [kind; is_slice; vals] -> the string Fmt returns (byte list), P = panic; kind 0..7 = int8, uint8,
+                                           int16, uint16, int32, uint32, int64, uint64, 8 = string (not an integer) *)
 From Coq Require Import ZArith List Bool String.
 From Low Require Import Lib.Bits Lib.BitSeq Lib.Val Model.BitmapJoin Spec.JoinSpec
   Model.BitmapMask Spec.MaskSpec Model.BitmapGetw32 Spec.GetwSpec
-  Model.BitmapSliceArray Spec.SliceArraySpec.
+  Model.BitmapSliceArray Spec.SliceArraySpec Model.BitmapFmt Spec.FmtSpec.
 Import ListNotations.
 Open Scope string_scope.
 Open Scope Z_scope.
@@ -110,5 +112,20 @@ Definition ops_C14 : list opdef := [
        | [ws; from; to] => match as_zs ws, as_z from, as_z to with
            | Some ws, Some from, Some to => vzs (spec_SliceArray ws from to)
            | _, _, _ => VBad end
+       | _ => VBad end) |};
+  {| op_name := "bitmap.Fmt";
+     op_run := fun a => match a with
+       | [VZ kind; VZ sl; vals] => match as_zs vals with
+           | Some vals =>
+               let is_slice := negb (sl =? 0) in
+               if (0 <=? kind) && (kind <=? 8) && forallb (kind_range kind) vals
+                  && (is_slice || (List.length vals =? 1)%nat)
+               then vopt_zs (Fmt kind is_slice vals) else VBad
+           | None => VBad end
+       | _ => VBad end;
+     op_spec := fun_spec (fun a => match a with
+       | [VZ kind; VZ sl; vals] => match as_zs vals with
+           | Some vals => vopt_zs (spec_Fmt kind (negb (sl =? 0)) vals)
+           | None => VBad end
        | _ => VBad end) |}
 ].
